@@ -48,7 +48,30 @@ func main() {
 	only := flag.String("files", "", "comma-separated file names (default: all non-test, non-vis files)")
 	limit := flag.Int("limit", 0, "max mutants (0 = all)")
 	stride := flag.Int("stride", 1, "take every n-th mutant")
+	recheck := flag.String("recheck", "", "results file of an earlier run: only re-run the checks on its survivors")
 	flag.Parse()
+	// private copy of the checker: the survey must not be disturbed by rebuilds of the binary
+	os.MkdirAll(*scratch, 0o755)
+	if b, err := os.ReadFile(*lint); err == nil {
+		priv := filepath.Join(*scratch, "rapidlint.private")
+		if os.WriteFile(priv, b, 0o755) == nil {
+			*lint = priv
+		}
+	}
+	prior := map[int]*mutant{}
+	if *recheck != "" {
+		b, _ := os.ReadFile(*recheck)
+		for _, l := range strings.Split(string(b), "\n") {
+			if strings.TrimSpace(l) == "" {
+				continue
+			}
+			var m mutant
+			if json.Unmarshal([]byte(l), &m) == nil {
+				mm := m
+				prior[m.ID] = &mm
+			}
+		}
+	}
 
 	fset := token.NewFileSet()
 	files, _ := filepath.Glob(filepath.Join(*repo, "*.go"))
@@ -186,21 +209,30 @@ func main() {
 					}
 					return string(b), err
 				}
-				if _, err := run(2*time.Minute, "go", "build", "./..."); err == nil {
-					m.Builds = true
-					outp, err := run(90*time.Second, "go", "test", "-vet=off", "-count=1", "-timeout", "60s", ".")
-					switch {
-					case err == nil:
-						m.Suite = "ok"
-					case strings.Contains(fmt.Sprint(err), "deadline"):
-						m.Suite = "timeout"
-					default:
-						m.Suite = "fail"
-						_ = outp
+				if pm := prior[m.ID]; *recheck != "" {
+					if pm == nil || pm.File != m.File || pm.Line != m.Line || pm.Kind != m.Kind {
+						os.RemoveAll(dir)
+						continue
+					}
+					m.Builds, m.Suite = pm.Builds, pm.Suite
+				}
+				if _, err := run(2*time.Minute, "go", "build", "./..."); err == nil || *recheck != "" {
+					if *recheck == "" {
+						m.Builds = true
+						outp, err := run(90*time.Second, "go", "test", "-vet=off", "-count=1", "-timeout", "60s", ".")
+						switch {
+						case err == nil:
+							m.Suite = "ok"
+						case strings.Contains(fmt.Sprint(err), "deadline"):
+							m.Suite = "timeout"
+						default:
+							m.Suite = "fail"
+							_ = outp
+						}
 					}
 					if m.Suite == "ok" {
 						lo, _ := run(3*time.Minute, *lint, "-repo", dir, "-property", "all", "-known", *known, "-evidence", filepath.Join(dir, ".ev"))
-						m.Checked = true
+						m.Checked = strings.Contains(lo, "tier=")
 						for _, l := range strings.Split(lo, "\n") {
 							l = strings.TrimSpace(l)
 							if strings.HasPrefix(l, "VIOLATED") || strings.HasPrefix(l, "UNDECIDED") {
